@@ -70,4 +70,7 @@ def opDistMoment (j : Json) : D Json := do
     | none => throw s!"no-moment:{fam}")
   pure (okJson [("moments", Json.arr (vals.map jsonRat).toArray)])
 
+def coreOps : List (String × (Json → D Json)) :=
+  [("moments", opMoments), ("dist", opDist), ("distmoment", opDistMoment)]
+
 end Polar
